@@ -39,11 +39,11 @@ def cases(draw, strategy, concurrent):
   tss = ts_choices(lag)
   nm = draw(st.integers(1, 5))
   nts = draw(st.integers(1, 4))
-  counter = [0]
+  counter = [-1]       # values are unique ids 0, 1, 2, ...: the first one is the falsy 0
 
   def store():
     counter[0] += 1
-    return ['store', draw(st.sampled_from(c02.METRICS[:nm])), draw(st.sampled_from(tss[:max(nts, 2) if lag else nts])), counter[0]]
+    return ['store', draw(st.sampled_from(c02.METRICS[:nm])), draw(st.sampled_from(tss if lag else tss[:nts])), counter[0]]
 
   def wait():
     return ['wait', draw(st.sampled_from([0.5, 1, 3, 6]))]
@@ -65,7 +65,7 @@ def cases(draw, strategy, concurrent):
     switches = []
   case = {'strategy': strategy, 'programs': programs, 'switches': switches, 'lag': lag,
           'choices': draw(st.lists(st.integers(0, 4), max_size=12)), 'first': draw(st.integers(0, 1)) if concurrent else 0}
-  if draw(st.integers(0, 3)) == 0:
+  if draw(st.integers(0, 3)) == 0 or (lag and draw(st.booleans())):
     case['max_cache_size'] = draw(st.sampled_from([2, 3, 5]))
     case['flow'] = draw(st.booleans())
   return case
@@ -137,8 +137,10 @@ def execute(ctx, case):
 
   def post(run, sched, Op):
     # completeness: no new input, clock passes the lag, drain until (None, [])
-    sched.now += lag + 1
     cache = run.cache
+    # the clock passes the lag for every cached datapoint (future-dated ones included)
+    newest = max([t for d in dict.values(cache) for t in d] + [sched.now]) if lag else sched.now
+    sched.now = max(sched.now, newest) + lag + 1
     budget = len(cache) * 2 + 6
     ops = []
     for _ in range(budget):
